@@ -629,6 +629,10 @@ class ExprMixin:
     # ------------------------------------------------------------ comprehensions
     def ev_comp(self, n, st, old):
         c = self.ctx
+        if "comp" in self.m.hooks:
+            r = self.m.hooks["comp"](self, n, st, old)
+            if r is not NotImplemented:
+                return r
         if len(n.generators) != 1:
             self.note("abstracted-expr", "multi-generator comprehension", n.lineno)
             return self.opaque("comp")
